@@ -31,3 +31,14 @@ package codec
 //@   property C18
 //@   hyp n >= 0 && 1 <= bs && bs <= 255 && pad == bs - n % bs && L == n + pad && last == pad
 //@   goal 1 <= last && last <= bs && last <= L && L - last == n && L > 0
+
+// AES-ECB entry points as seen by the cryption middleware (bodies not verified here: the block cipher is trusted, the
+// padding layer above is proved)
+//@ func EcbDecrypt
+//@   trusted
+//@   modifies nothing
+//@   allocates
+//@ func EcbEncrypt
+//@   trusted
+//@   modifies nothing
+//@   allocates
